@@ -98,6 +98,15 @@ func runHistory(run *evid.Run, rng *rand.Rand, h int, immutable, large bool, nOp
 		}
 		return !diverged
 	}
+	if h%4 == 3 {
+		// a scripted prefix: nested indexes with an entry that dangles in front of live siblings
+		run.Count("nested_dangling_prefixes", 1)
+		for _, op := range u.NestedDanglingOps(rng, u.Repos[rng.IntN(len(u.Repos))], "nested") {
+			if !exec(op) {
+				return
+			}
+		}
+	}
 	for i := 0; i < nOps; i++ {
 		op := u.GenOp(rng, m, opts)
 		if !exec(op) {
